@@ -291,6 +291,8 @@ type stateProgress struct {
 	resultOnce sync.Once
 	// Used to track subinclude() calls that block until targets are built. Keyed by their label.
 	pendingTargets *cmap.Map[BuildLabel, chan struct{}]
+	// Guards closing the channels in pendingTargets, which can now happen on success or failure.
+	pendingTargetsMutex sync.Mutex
 	// Used to track general package parsing requests. Keyed by a packageKey struct.
 	pendingPackages *cmap.Map[packageKey, chan struct{}]
 	// similar to pendingPackages but consumers haven't committed to parsing the package
@@ -555,8 +557,19 @@ func (state *BuildState) LogBuildResult(target *BuildTarget, status BuildResultS
 	})
 	if status == TargetBuilt || status == TargetCached {
 		// We may have parse tasks waiting for this guy to build, check for them.
-		if ch := state.progress.pendingTargets.Get(target.Label); ch != nil {
-			close(ch) // This signals to anyone waiting that it's done.
+		state.closePendingTarget(target.Label)
+	}
+}
+
+// closePendingTarget signals to anyone waiting in WaitForBuiltTarget that the target is done (one way or the other).
+func (state *BuildState) closePendingTarget(label BuildLabel) {
+	if ch := state.progress.pendingTargets.Get(label); ch != nil {
+		state.progress.pendingTargetsMutex.Lock()
+		defer state.progress.pendingTargetsMutex.Unlock()
+		select {
+		case <-ch: // already closed
+		default:
+			close(ch)
 		}
 	}
 }
@@ -608,6 +621,11 @@ func (state *BuildState) LogBuildError(label BuildLabel, status BuildResultStatu
 		Err:         err,
 		Description: fmt.Sprintf(format, args...),
 	})
+	if status == TargetBuildFailed {
+		// Parse tasks waiting for this target (e.g. to subinclude it) must not wait forever; with --keep_going
+		// nothing else would ever stop them.
+		state.closePendingTarget(label)
+	}
 }
 
 // logResult logs a build result directly to the state's queue.
